@@ -160,3 +160,1024 @@ Proof.
     inv_pair H. split; reflexivity.
   - inv_pair H. split; reflexivity.
 Qed.
+
+(* ---------- kinds of observations ------------------------------------------------------------------ *)
+
+(* an observation of the solicited side: nothing the unsolicited rules talk about *)
+Definition solob (o : oobs) : Prop :=
+  match o with
+  | OTx _ b => nth 1 b 0 = 129
+  | ODb (DbWriteUnsol _ _ _) | ODb DbDeferredSelect => False
+  | ODb _ => True
+  | OCb _ => True
+  | OInfo (IEnterUnsolWait _) | OInfo (IUnsolTimeout _ _) | OInfo (IUnsolConfirmed _) => False
+  | OInfo _ => True
+  | OMissingAnswer => True
+  | OSessionEnd | OAt _ | OOutOfFuel => False
+  end.
+
+(* the event-info probe of get_response_iin *)
+Definition evq (o : oobs) : Prop := o = ODb DbEvinfo \/ o = OMissingAnswer.
+
+(* executing a request: callbacks and the clearing of RESTART *)
+Definition exob (o : oobs) : Prop :=
+  match o with OCb _ | OInfo IClearRestart => True | _ => False end.
+
+Lemma evq_solob : forall o, evq o -> solob o.
+Proof. intros o [H|H]; subst; exact I. Qed.
+
+Lemma exob_solob : forall o, exob o -> solob o.
+Proof. intros [] H; try destruct H; try exact I. destruct i; try destruct H; exact I. Qed.
+
+Lemma Forall_imp : forall (P Q : oobs -> Prop) l, (forall o, P o -> Q o) -> Forall P l -> Forall Q l.
+Proof. intros P Q l H F. eapply Forall_impl; eauto. Qed.
+
+Ltac fa_tac := repeat (apply Forall_app; split); repeat (first [apply Forall_nil | apply Forall_cons]);
+  cbn; auto.
+
+Lemma ask_evinfo_out : forall s s' x o, ask_evinfo s = (s', x, o) -> Forall evq o.
+Proof.
+  intros s s' x o H. unfold ask_evinfo in H.
+  destruct (s_answers s) as [|[] rest]; inv_pair H; unfold evq; fa_tac.
+Qed.
+
+Lemma response_iin_out : forall s s' x o, response_iin s = (s', x, o) -> Forall evq o.
+Proof.
+  intros s s' x o H. unfold response_iin in H.
+  destruct (ask_evinfo s) as [[s1 [[[c1 c2] c3] ovf]] o1] eqn:E.
+  apply ask_evinfo_out in E. inv_pair H. exact E.
+Qed.
+
+Lemma nth1_response_bytes : forall r buf, nth 1 (response_bytes r buf) 0 = r_fn r.
+Proof. reflexivity. Qed.
+
+Lemma nth0_response_bytes : forall r buf, nth 0 (response_bytes r buf) 0 = r_ctl r.
+Proof. reflexivity. Qed.
+
+Lemma ctl_seq_set_con : forall c, ctl_seq (set_con c) = ctl_seq c.
+Proof.
+  intros c. unfold set_con, ctl_seq. destruct (ctl_con c); [reflexivity|].
+  replace (c + 32) with (c + 2 * 16) by lia. rewrite N.mod_add by lia. reflexivity.
+Qed.
+
+(* write_solicited: the probe, then exactly one fragment to `dest` *)
+Lemma write_solicited_spec : forall s d r s' r' o,
+  write_solicited s d r = (s', r', o) ->
+  exists o1, o = o1 ++ [OTx d (response_bytes r' (s_sol_buf s'))] /\ Forall evq o1 /\
+             r_fn r' = r_fn r /\ ctl_seq (r_ctl r') = ctl_seq (r_ctl r) /\ r_size r' = r_size r /\
+             s_sol_buf s' = s_sol_buf s.
+Proof.
+  intros s d r s' r' o H. unfold write_solicited in H.
+  destruct (response_iin s) as [[s1 iin] o1] eqn:E.
+  pose proof (response_iin_out _ _ _ _ E) as Ho.
+  assert (Hb : s_sol_buf s1 = s_sol_buf s).
+  { unfold response_iin in E. destruct (ask_evinfo s) as [[s0 [[[c1 c2] c3] ovf]] o0] eqn:E0.
+    inv_pair E. unfold ask_evinfo in E0.
+    destruct (s_answers s) as [|[] rest]; inv_pair E0; destruct (s_last_bcast _) as [[]|]; reflexivity. }
+  inv_pair H. exists o1. repeat split; auto.
+  - destruct (s_last_bcast s') as [[]|]; reflexivity.
+  - destruct (s_last_bcast s') as [[]|]; try reflexivity.
+    cbn [with_ctl r_ctl or_iin]. apply ctl_seq_set_con.
+  - destruct (s_last_bcast s') as [[]|]; reflexivity.
+Qed.
+
+Lemma write_solicited_out : forall s d r s' r' o,
+  write_solicited s d r = (s', r', o) -> r_fn r = 129 -> Forall solob o /\ r_fn r' = 129.
+Proof.
+  intros s d r s' r' o H Hr. apply write_solicited_spec in H.
+  destruct H as (o1 & -> & Ho & Hf & _). split; [|congruence].
+  apply Forall_app; split; [eapply Forall_imp; [apply evq_solob|exact Ho]|].
+  constructor; [|constructor]. cbn [solob]. rewrite nth1_response_bytes. congruence.
+Qed.
+
+(* ---------- outputs of request execution -------------------------------------------------------- *)
+
+Lemma write_iin_bits_out : forall bits s s' v o, write_iin_bits s bits = (s', v, o) -> Forall exob o.
+Proof.
+  induction bits as [|[idx value] rest IH]; intros s s' v o H; cbn [write_iin_bits] in H.
+  - inv_pair H. constructor.
+  - destruct (idx =? 7).
+    + destruct value.
+      * destruct (write_iin_bits s rest) as [[s1 v1] o1] eqn:E. inv_pair H. eauto.
+      * destruct (write_iin_bits (upd_restart s false) rest) as [[s1 v1] o1] eqn:E. inv_pair H.
+        constructor; [exact I|eauto].
+    + destruct (write_iin_bits s rest) as [[s1 v1] o1] eqn:E. inv_pair H. eauto.
+Qed.
+
+Lemma write_header_out : forall cfg s h s' v o, write_header cfg s h = (s', v, o) -> Forall exob o.
+Proof.
+  intros cfg s h s' v o H. unfold write_header in H.
+  destruct h as [bits|t|t| | | | | | | |]; try (inv_pair H; fa_tac).
+  - eapply write_iin_bits_out; eauto.
+  - destruct t; inv_pair H; fa_tac.
+  - destruct t as [t|]; [|inv_pair H; fa_tac].
+    destruct (s_last_recorded s); [|inv_pair H; fa_tac].
+    destruct (_ <? _); inv_pair H; fa_tac.
+Qed.
+
+Lemma handle_write_headers_out : forall cfg hdrs s s' v o,
+  handle_write_headers cfg s hdrs = (s', v, o) -> Forall exob o.
+Proof.
+  induction hdrs as [|h rest IH]; intros s s' v o H; cbn [handle_write_headers] in H.
+  - inv_pair H. constructor.
+  - destruct (write_header cfg s h) as [[s1 v1] o1] eqn:E1.
+    destruct (handle_write_headers cfg s1 rest) as [[s2 v2] o2] eqn:E2.
+    inv_pair H. apply Forall_app; split; [eapply write_header_out; eauto|eauto].
+Qed.
+
+Lemma freeze_header_out : forall cfg ft t i h v o, freeze_header cfg ft t i h = (v, o) -> Forall exob o.
+Proof. intros cfg ft t i h v o H. unfold freeze_header in H. destruct h; inv_pair H; fa_tac. Qed.
+
+Lemma handle_freeze_out : forall cfg ft hdrs v o, handle_freeze cfg ft hdrs = (v, o) -> Forall exob o.
+Proof.
+  induction hdrs as [|h rest IH]; intros v o H; cbn [handle_freeze] in H.
+  - inv_pair H. constructor.
+  - destruct (freeze_header cfg ft 0 0 h) as [v1 o1] eqn:E1.
+    destruct (handle_freeze cfg ft rest) as [v2 o2] eqn:E2. inv_pair H.
+    apply Forall_app; split; [eapply freeze_header_out; eauto|eauto].
+Qed.
+
+Lemma handle_freeze_at_time_out : forall cfg hdrs timing v o,
+  handle_freeze_at_time cfg timing hdrs = (v, o) -> Forall exob o.
+Proof.
+  induction hdrs as [|h rest IH]; intros timing v o H; cbn [handle_freeze_at_time] in H.
+  - inv_pair H. constructor.
+  - assert (Hgen : forall v o,
+      match timing with
+      | None => let '(v, o) := handle_freeze_at_time cfg timing rest in (N.lor iin2_param v, o)
+      | Some (t, i) =>
+          let '(v1, o1) := freeze_header cfg 2 t i h in
+          let '(v2, o2) := handle_freeze_at_time cfg timing rest in
+          (N.lor v1 v2, o1 ++ o2)
+      end = (v, o) -> Forall exob o).
+    { intros v' o' H'. destruct timing as [[t i]|].
+      - destruct (freeze_header cfg 2 t i h) as [v1 o1] eqn:E1.
+        destruct (handle_freeze_at_time cfg (Some (t, i)) rest) as [v2 o2] eqn:E2. inv_pair H'.
+        apply Forall_app; split; [eapply freeze_header_out; eauto|eauto].
+      - destruct (handle_freeze_at_time cfg None rest) as [v2 o2] eqn:E2. inv_pair H'. eauto. }
+    destruct h; try (apply Hgen in H; exact H).
+    destruct x as [x|].
+    + eauto.
+    + destruct (handle_freeze_at_time cfg timing rest) as [v2 o2] eqn:E2. inv_pair H. eauto.
+Qed.
+
+Lemma ctl_one_header_out : forall s cfg cap mode g v prefix items written n hs num started w ok o st num' started',
+  ctl_one_header s cfg cap mode g v prefix written n hs num started items = (w, ok, o, st, num', started') ->
+  Forall exob o.
+Proof.
+  induction items as [|[idx obj] rest IH]; intros written n hs num started w ok o st num' started' H;
+    cbn [ctl_one_header] in H.
+  - inv_pair H. constructor.
+  - destruct (item_status s cfg mode num) as [st0 consulted].
+    destruct (echo_items cap g v prefix written n hs [(idx, replace_status obj st0)]) as [w1 ok1].
+    assert (Hcb : Forall exob (if consulted
+               then (if started then [] else [OCb CbBeginFragment]) ++
+                    [OCb match mode with CmOperate t => CbOperate g v idx t obj | _ => CbSelect g v idx obj end]
+               else [])).
+    { destruct consulted, started; fa_tac. }
+    destruct ok1.
+    + destruct (ctl_one_header s cfg cap mode g v prefix w1 (n + 1) hs (num + 1) (started || consulted) rest)
+        as [[[[[w2 ok2] cbs] st2] num2] started2] eqn:E.
+      inv_pair H. apply Forall_app; split; [exact Hcb|eauto].
+    + inv_pair H. exact Hcb.
+Qed.
+
+Lemma ctl_headers_out : forall s cfg cap mode hdrs written num started w ok o st started',
+  ctl_headers s cfg cap mode written num started hdrs = (w, ok, o, st, started') -> Forall exob o.
+Proof.
+  induction hdrs as [|h rest IH]; intros written num started w ok o st started' H; cbn [ctl_headers] in H.
+  - inv_pair H. constructor.
+  - destruct h; eauto.
+    destruct (ctl_one_header s cfg cap mode g v prefix written 0 (length written) num started items)
+      as [[[[[w1 ok1] cbs] st1] num1] started1] eqn:E1.
+    apply ctl_one_header_out in E1.
+    destruct ok1.
+    + destruct (ctl_headers s cfg cap mode w1 num1 started1 rest) as [[[[w2 ok2] cbs2] st2] started2] eqn:E2.
+      inv_pair H. apply Forall_app; split; eauto.
+    + inv_pair H. exact E1.
+Qed.
+
+Lemma noack_items_out : forall s cfg g v items num started o num' started',
+  noack_items s cfg g v num started items = (o, num', started') -> Forall exob o.
+Proof.
+  induction items as [|[idx obj] rest IH]; intros num started o num' started' H; cbn [noack_items] in H.
+  - inv_pair H. constructor.
+  - destruct (noack_items s cfg g v (num + 1)
+               (started || match o_max_controls cfg with None => true | Some m => num <? m end) rest)
+      as [[cbs n1] st1] eqn:E.
+    inv_pair H. apply Forall_app; split; [|eauto].
+    destruct (match o_max_controls cfg with None => true | Some m => num <? m end), started; fa_tac.
+Qed.
+
+Lemma noack_headers_out : forall s cfg hdrs num started o started',
+  noack_headers s cfg num started hdrs = (o, started') -> Forall exob o.
+Proof.
+  induction hdrs as [|h rest IH]; intros num started o started' H; cbn [noack_headers] in H.
+  - inv_pair H. constructor.
+  - destruct h; eauto.
+    destruct (noack_items s cfg g v num started items) as [[cbs n1] st1] eqn:E1.
+    destruct (noack_headers s cfg n1 st1 rest) as [cbs2 st2] eqn:E2.
+    inv_pair H. apply Forall_app; split; [eapply noack_items_out; eauto|eauto].
+Qed.
+
+Definition sol_ctl (seq : N) : N := ctl_byte true true false false seq.
+
+(* a response produced by executing a request *)
+Definition req_resp (seq : N) (r : response) : Prop := r_fn r = 129 /\ r_ctl r = sol_ctl seq.
+
+Lemma handle_controls_out : forall cfg s fn seq fid bytes hdrs s' r o,
+  handle_controls cfg s fn seq fid bytes hdrs = (s', r, o) ->
+  Forall exob o /\ (forall x, r = Some x -> req_resp seq x) /\ (r = None -> fn = 6).
+Proof.
+  intros cfg s fn seq fid bytes hdrs s' r o H. unfold handle_controls in H.
+  assert (Hfin : forall b : bool, Forall exob (if b then [OCb CbEndFragment] else [])).
+  { intros []; fa_tac. }
+  destruct (negb (all_controls hdrs)).
+  { inv_pair H. split; [constructor|]. split.
+    - intros x Hx. destruct (fn =? fn_direct_operate_nr); inversion Hx; subst. split; reflexivity.
+    - destruct (fn =? fn_direct_operate_nr) eqn:E; [|discriminate]. intros _. apply N.eqb_eq in E. exact E. }
+  destruct (fn =? fn_direct_operate_nr) eqn:Enr.
+  { destruct (noack_headers s cfg 0 false hdrs) as [cbs started] eqn:E. inv_pair H.
+    split; [apply Forall_app; split; [eapply noack_headers_out; eauto|apply Hfin]|].
+    split; [discriminate|]. intros _. apply N.eqb_eq in Enr. exact Enr. }
+  destruct (fn =? fn_select).
+  { destruct (ctl_headers s cfg (o_sol_tx cfg - 4) CmSelect [] 0 false hdrs) as [[[[echo ok] cbs] st] started] eqn:E.
+    inv_pair H. split; [apply Forall_app; split; [eapply ctl_headers_out; eauto|apply Hfin]|].
+    split; [|discriminate]. intros x Hx. inversion Hx; subst. split; reflexivity. }
+  destruct (fn =? fn_direct_operate).
+  { destruct (ctl_headers s cfg (o_sol_tx cfg - 4) (CmOperate OpDo) [] 0 false hdrs) as [[[[echo ok] cbs] st] started] eqn:E.
+    inv_pair H. split; [apply Forall_app; split; [eapply ctl_headers_out; eauto|apply Hfin]|].
+    split; [|discriminate]. intros x Hx. inversion Hx; subst. split; reflexivity. }
+  destruct (match s_select s with Some sel => _ | None => _ end).
+  - destruct (ctl_headers s cfg (o_sol_tx cfg - 4) (CmStatus n) [] 0 false hdrs) as [[[[echo ok] cbs] st] started] eqn:E.
+    inv_pair H. split; [constructor|]. split; [|discriminate].
+    intros x Hx. inversion Hx; subst. split; reflexivity.
+  - destruct (ctl_headers s cfg (o_sol_tx cfg - 4) (CmOperate OpSbo) [] 0 false hdrs) as [[[[echo ok] cbs] st] started] eqn:E.
+    inv_pair H. split; [apply Forall_app; split; [eapply ctl_headers_out; eauto|apply Hfin]|].
+    split; [|discriminate]. intros x Hx. inversion Hx; subst. split; reflexivity.
+Qed.
+
+Lemma frame_gview : forall s s', frame s s' -> gview s' = gview s /\ s_enabled s' = s_enabled s.
+Proof. unfold frame, fview, gview. intros s s' H. split; congruence. Qed.
+
+Definition noresp_fn (fn : N) : Prop := fn = 6 \/ fn = 8 \/ fn = 10 \/ fn = 12.
+
+Lemma restart_response_resp : forall seq s d s' r, restart_response seq s d = (s', r) -> req_resp seq r.
+Proof.
+  intros seq s d s' r H. unfold restart_response in H.
+  destruct d as [[ms v]|]; inv_pair H; split; reflexivity.
+Qed.
+
+Lemma req_resp_empty : forall seq v, req_resp seq (empty_solicited seq v).
+Proof. intros; split; reflexivity. Qed.
+
+Definition enabled_change (cfg : ocfg) (fn : N) (hdrs : list whdr) (s s' : ostate) : Prop :=
+  s_enabled s' = s_enabled s \/
+  (o_unsol cfg = true /\ (fn = 20 \/ fn = 21) /\ s_enabled s' = set_classes (fn =? 20) hdrs (s_enabled s)).
+
+Ltac spl := split; [|split; [|split; [|split]]].
+
+Lemma handle_non_read_spec : forall cfg s fn seq fid bytes hdrs s' r o,
+  handle_non_read cfg s fn seq fid bytes hdrs = (s', r, o) ->
+  gview s' = gview s /\ Forall exob o /\
+  (forall x, r = Some x -> req_resp seq x) /\ (r = None -> noresp_fn fn) /\
+  enabled_change cfg fn hdrs s s'.
+Proof.
+  intros cfg s fn seq fid bytes hdrs s' r o H. unfold handle_non_read in H. cbv beta zeta in H.
+  match type of H with (let '(_, _) := ?X in _) = _ => destruct X as [[s1 r1] o1] eqn:E end.
+  inv_pair H.
+  assert (Hin : gview s' = gview s /\ Forall exob o /\
+                (forall x, r1 = Some x -> req_resp seq x) /\ (r1 = None -> noresp_fn fn) /\
+                enabled_change cfg fn hdrs s s').
+  2:{ destruct Hin as (Hg & Ho & Hr & Hn & He). spl; auto.
+      - intros x Hx. destruct r1 as [r1|]; [|discriminate]. inversion Hx; subst.
+        destruct (Hr r1 eq_refl) as [Hf Hc]. split; [exact Hf|exact Hc].
+      - intros Hx. destruct r1; [discriminate|]. auto. }
+  assert (Hfr : forall s0, frame s s0 -> gview s0 = gview s /\ enabled_change cfg fn hdrs s s0).
+  { intros s0 Hf. apply frame_gview in Hf. destruct Hf as [Hg He]. split; [exact Hg|left; exact He]. }
+  assert (Hsome : forall x v, Some (empty_solicited seq v) = Some x -> req_resp seq x).
+  { intros x v Hx. inversion Hx; subst. apply req_resp_empty. }
+  destruct (fn =? fn_write) eqn:E1.
+  { destruct (handle_write_headers cfg s hdrs) as [[s2 v] o2] eqn:E2. inv_pair E.
+    destruct (Hfr _ (handle_write_headers_frame _ _ _ _ _ _ E2)) as [Hg He].
+    spl; eauto using handle_write_headers_out. discriminate. }
+  destruct (fn =? fn_delay_measure) eqn:E2.
+  { inv_pair E. destruct (Hfr s (frame_refl _)) as [Hg He].
+    spl; [reflexivity|constructor| |discriminate|left; reflexivity].
+    intros x Hx. inversion Hx; subst. split; reflexivity. }
+  destruct (fn =? fn_record_time) eqn:E3.
+  { inv_pair E. spl; [reflexivity|constructor|eauto|discriminate|left; reflexivity]. }
+  destruct (fn =? fn_cold_restart) eqn:E4.
+  { destruct (restart_response seq s (o_cold cfg)) as [s2 r2] eqn:Er. inv_pair E.
+    destruct (Hfr _ (restart_response_frame _ _ _ _ _ Er)) as [Hg He].
+    spl; [exact Hg|fa_tac| |discriminate|exact He].
+    intros x Hx. inversion Hx; subst. eapply restart_response_resp; eauto. }
+  destruct (fn =? fn_warm_restart) eqn:E5.
+  { destruct (restart_response seq s (o_warm cfg)) as [s2 r2] eqn:Er. inv_pair E.
+    destruct (Hfr _ (restart_response_frame _ _ _ _ _ Er)) as [Hg He].
+    spl; [exact Hg|fa_tac| |discriminate|exact He].
+    intros x Hx. inversion Hx; subst. eapply restart_response_resp; eauto. }
+  destruct ((fn =? fn_select) || (fn =? fn_operate) || (fn =? fn_direct_operate) || (fn =? fn_direct_operate_nr)) eqn:E6.
+  { destruct (Hfr _ (handle_controls_frame _ _ _ _ _ _ _ _ _ _ E)) as [Hg He].
+    destruct (handle_controls_out _ _ _ _ _ _ _ _ _ _ E) as (Ho & Hr & Hn).
+    spl; auto. intros Hx. left. auto. }
+  destruct (fn =? fn_immediate_freeze) eqn:E7.
+  { destruct (handle_freeze cfg 0 hdrs) as [v o2] eqn:Ef. inv_pair E.
+    destruct (Hfr s' (frame_refl _)) as [Hg He].
+    spl; eauto using handle_freeze_out. discriminate. }
+  destruct (fn =? fn_immediate_freeze_nr) eqn:E8.
+  { destruct (handle_freeze cfg 0 hdrs) as [v o2] eqn:Ef. inv_pair E.
+    destruct (Hfr s' (frame_refl _)) as [Hg He]. apply N.eqb_eq in E8.
+    spl; eauto using handle_freeze_out; try discriminate. intros _. right; left. exact E8. }
+  destruct (fn =? fn_freeze_clear) eqn:E9.
+  { destruct (handle_freeze cfg 1 hdrs) as [v o2] eqn:Ef. inv_pair E.
+    destruct (Hfr s' (frame_refl _)) as [Hg He].
+    spl; eauto using handle_freeze_out. discriminate. }
+  destruct (fn =? fn_freeze_clear_nr) eqn:E10.
+  { destruct (handle_freeze cfg 1 hdrs) as [v o2] eqn:Ef. inv_pair E.
+    destruct (Hfr s' (frame_refl _)) as [Hg He]. apply N.eqb_eq in E10.
+    spl; eauto using handle_freeze_out; try discriminate. intros _. right; right; left. exact E10. }
+  destruct (fn =? fn_freeze_at_time) eqn:E11.
+  { destruct (handle_freeze_at_time cfg None hdrs) as [v o2] eqn:Ef. inv_pair E.
+    destruct (Hfr s' (frame_refl _)) as [Hg He].
+    spl; eauto using handle_freeze_at_time_out. discriminate. }
+  destruct (fn =? fn_freeze_at_time_nr) eqn:E12.
+  { destruct (handle_freeze_at_time cfg None hdrs) as [v o2] eqn:Ef. inv_pair E.
+    destruct (Hfr s' (frame_refl _)) as [Hg He]. apply N.eqb_eq in E12.
+    spl; eauto using handle_freeze_at_time_out; try discriminate. intros _. right; right; right. exact E12. }
+  assert (Hed : forall en s2 r2 x, enable_disable cfg s en seq hdrs = (s2, r2) -> Some r2 = Some x -> req_resp seq x).
+  { intros en s2 r2 x Ee' Hx. inversion Hx; subst. unfold enable_disable in Ee'.
+    destruct (negb (o_unsol cfg)); [inv_pair Ee'; apply req_resp_empty|].
+    destruct (fold_left _ hdrs (s_enabled s, 0)) as [e v]. inv_pair Ee'. apply req_resp_empty. }
+  destruct (fn =? fn_enable_unsol) eqn:E13.
+  { destruct (enable_disable cfg s true seq hdrs) as [s2 r2] eqn:Ee. inv_pair E.
+    pose proof Ee as Ee'. apply enable_disable_spec in Ee. destruct Ee as [Hg He].
+    apply N.eqb_eq in E13. subst fn.
+    spl; [exact Hg|constructor|intros x Hx; eapply Hed; eauto|discriminate|].
+    destruct (o_unsol cfg) eqn:Eu; [right|left; exact He]. split; [exact Eu|]. split; [left; reflexivity|exact He]. }
+  destruct (fn =? fn_disable_unsol) eqn:E14.
+  { destruct (enable_disable cfg s false seq hdrs) as [s2 r2] eqn:Ee. inv_pair E.
+    pose proof Ee as Ee'. apply enable_disable_spec in Ee. destruct Ee as [Hg He].
+    apply N.eqb_eq in E14. subst fn.
+    spl; [exact Hg|constructor|intros x Hx; eapply Hed; eauto|discriminate|].
+    destruct (o_unsol cfg) eqn:Eu; [right|left; exact He]. split; [exact Eu|]. split; [right; reflexivity|exact He]. }
+  inv_pair E. destruct (Hfr s' (frame_refl _)) as [Hg He].
+  spl; [exact Hg|constructor|eauto|discriminate|exact He].
+Qed.
+
+(* ---------- READ responses, broadcast, error responses --------------------------------------------- *)
+
+Lemma ctl_seq_ctl_byte : forall a b c d q, ctl_seq (ctl_byte a b c d q) = q mod 16.
+Proof. intros a b c d q. unfold ctl_seq, ctl_byte. destruct a, b, c, d; lia. Qed.
+
+Definition dbq (o : oobs) : Prop :=
+  match o with ODb DbSelect | ODb DbWrite | ODb DbEvinfo | OMissingAnswer => True | _ => False end.
+
+Lemma dbq_solob : forall o, dbq o -> solob o.
+Proof. intros [] H; try destruct H; try exact I. destruct c; try destruct H; exact I. Qed.
+
+Lemma evq_dbq : forall o, evq o -> dbq o.
+Proof. intros o [H|H]; subst; exact I. Qed.
+
+Lemma format_read_response_spec : forall s fir seq iin2 s' r se o,
+  format_read_response s fir seq iin2 = (s', r, se, o) ->
+  frame s s' /\ r_fn r = 129 /\ ctl_seq (r_ctl r) = seq mod 16 /\ Forall dbq o /\
+  (forall x, se = Some x -> se_ecsn x = seq).
+Proof.
+  intros s fir seq iin2 s' r se o H. unfold format_read_response in H.
+  destruct (ask_write s) as [[s1 [[complete has_events] body]] o1] eqn:E.
+  pose proof (ask_write_frame _ _ _ _ E) as Hf. inv_pair H.
+  split; [eapply frame_trans; [exact Hf|reflexivity]|].
+  split; [reflexivity|]. split; [apply ctl_seq_ctl_byte|]. split.
+  - unfold ask_write in E. destruct (s_answers s) as [|[] rest]; inv_pair E; fa_tac.
+  - intros x Hx. destruct (has_events || negb complete); inversion Hx; subst. reflexivity.
+Qed.
+
+Lemma ask_iin2_out : forall s c s' v o, ask_iin2 s c = (s', v, o) ->
+  o = [ODb c] \/ o = [ODb c; OMissingAnswer].
+Proof.
+  intros s c s' v o H. unfold ask_iin2 in H.
+  destruct (s_answers s) as [|[] rest]; inv_pair H; auto.
+Qed.
+
+Lemma format_first_read_response_spec : forall s seq s' r se o,
+  format_first_read_response s seq = (s', r, se, o) ->
+  frame s s' /\ r_fn r = 129 /\ ctl_seq (r_ctl r) = seq mod 16 /\ Forall dbq o.
+Proof.
+  intros s seq s' r se o H. unfold format_first_read_response in H.
+  destruct (ask_iin2 s DbSelect) as [[s1 iin2] o1] eqn:E1.
+  destruct (format_read_response s1 true seq iin2) as [[[s2 r2] se2] o2] eqn:E2.
+  inv_pair H. apply format_read_response_spec in E2. destruct E2 as (Hf & Hr & Hc & Ho & _).
+  split; [eapply frame_trans; [eapply ask_iin2_frame; eauto|exact Hf]|].
+  split; [exact Hr|]. split; [exact Hc|].
+  apply Forall_app; split; [|exact Ho].
+  destruct (ask_iin2_out _ _ _ _ _ E1) as [-> | ->]; fa_tac.
+Qed.
+
+Lemma process_broadcast_spec : forall cfg s m fid ctl fn bytes obj s' o,
+  process_broadcast cfg s m fid ctl fn bytes obj = (s', o) ->
+  gview s' = gview s /\ Forall solob o /\
+  (s_enabled s' = s_enabled s \/
+   exists hdrs rh, obj = ObjOk hdrs rh /\ o_broadcast cfg = true /\
+                   enabled_change cfg fn hdrs s s').
+Proof.
+  intros cfg s m fid ctl fn bytes obj s' o H. unfold process_broadcast in H.
+  assert (H0 : gview (upd_last_bcast s (Some m)) = gview s) by reflexivity.
+  assert (He0 : s_enabled (upd_last_bcast s (Some m)) = s_enabled s) by reflexivity.
+  set (s0 := upd_last_bcast s (Some m)) in *.
+  assert (Hfr : forall s1, frame s0 s1 -> gview s1 = gview s /\ s_enabled s1 = s_enabled s).
+  { intros s1 Hf. apply frame_gview in Hf. destruct Hf as [Hg He]. split; congruence. }
+  destruct (negb (o_broadcast cfg)) eqn:Eb.
+  { inv_pair H. split; [exact H0|]. split; [fa_tac|left; exact He0]. }
+  destruct obj as [iin2|hdrs rh].
+  { inv_pair H. split; [exact H0|]. split; [fa_tac|left; exact He0]. }
+  cbv zeta in H.
+  assert (Hdone : forall o1, Forall exob o1 -> Forall solob (o1 ++ [OInfo (IBroadcast fn 0 0)])).
+  { intros o1 Ho1. apply Forall_app; split; [eapply Forall_imp; [apply exob_solob|exact Ho1]|fa_tac]. }
+  destruct (fn =? fn_write).
+  { destruct (handle_write_headers cfg s0 hdrs) as [[s1 v] o1] eqn:E. inv_pair H.
+    destruct (Hfr _ (handle_write_headers_frame _ _ _ _ _ _ E)) as [Hg He].
+    split; [exact Hg|]. split; [apply Hdone; eapply handle_write_headers_out; eauto|left; exact He]. }
+  destruct (fn =? fn_direct_operate_nr).
+  { destruct (handle_controls cfg s0 fn (ctl_seq ctl) fid bytes hdrs) as [[s1 r1] o1] eqn:E. inv_pair H.
+    destruct (Hfr _ (handle_controls_frame _ _ _ _ _ _ _ _ _ _ E)) as [Hg He].
+    destruct (handle_controls_out _ _ _ _ _ _ _ _ _ _ E) as (Ho & _).
+    split; [exact Hg|]. split; [apply Hdone; exact Ho|left; exact He]. }
+  destruct (fn =? fn_immediate_freeze_nr).
+  { destruct (handle_freeze cfg 0 hdrs) as [v o1] eqn:E. inv_pair H.
+    split; [exact H0|]. split; [apply Hdone; eapply handle_freeze_out; eauto|left; exact He0]. }
+  destruct (fn =? fn_freeze_clear_nr).
+  { destruct (handle_freeze cfg 1 hdrs) as [v o1] eqn:E. inv_pair H.
+    split; [exact H0|]. split; [apply Hdone; eapply handle_freeze_out; eauto|left; exact He0]. }
+  destruct (fn =? fn_freeze_at_time_nr).
+  { destruct (handle_freeze_at_time cfg None hdrs) as [v o1] eqn:E. inv_pair H.
+    split; [exact H0|]. split; [apply Hdone; eapply handle_freeze_at_time_out; eauto|left; exact He0]. }
+  destruct (fn =? fn_record_time).
+  { inv_pair H. split; [reflexivity|]. split; [apply (Hdone []); constructor|left; reflexivity]. }
+  assert (Hb : o_broadcast cfg = true) by (destruct (o_broadcast cfg); [reflexivity|discriminate]).
+  destruct (fn =? fn_disable_unsol) eqn:E21.
+  { destruct (enable_disable cfg s0 false (ctl_seq ctl) hdrs) as [s1 r1] eqn:E. inv_pair H.
+    apply enable_disable_spec in E. destruct E as [Hg He]. apply N.eqb_eq in E21. subst fn.
+    split; [congruence|]. split; [apply (Hdone []); constructor|].
+    right. exists hdrs, rh. split; [reflexivity|]. split; [exact Hb|].
+    unfold enabled_change. destruct (o_unsol cfg) eqn:Eu; [right|left; congruence].
+    split; [first [exact Eu|reflexivity]|]. split; [right; reflexivity|]. rewrite He, He0. reflexivity. }
+  destruct (fn =? fn_enable_unsol) eqn:E20.
+  { destruct (enable_disable cfg s0 true (ctl_seq ctl) hdrs) as [s1 r1] eqn:E. inv_pair H.
+    apply enable_disable_spec in E. destruct E as [Hg He]. apply N.eqb_eq in E20. subst fn.
+    split; [congruence|]. split; [apply (Hdone []); constructor|].
+    right. exists hdrs, rh. split; [reflexivity|]. split; [exact Hb|].
+    unfold enabled_change. destruct (o_unsol cfg) eqn:Eu; [right|left; congruence].
+    split; [first [exact Eu|reflexivity]|]. split; [left; reflexivity|]. rewrite He, He0. reflexivity. }
+  inv_pair H. split; [exact H0|]. split; [fa_tac|left; exact He0].
+Qed.
+
+Lemma write_error_response_spec : forall s from bc seq s' o,
+  write_error_response s from bc seq = (s', o) -> frame s s' /\ Forall solob o.
+Proof.
+  intros s from bc seq s' o H. unfold write_error_response in H.
+  destruct bc as [m|]; [inv_pair H; split; [reflexivity|constructor]|].
+  destruct seq as [q|]; [|inv_pair H; split; [reflexivity|constructor]].
+  destruct (write_solicited s from (empty_solicited q iin2_no_func)) as [[s1 r1] o1] eqn:E.
+  inv_pair H. split; [eapply write_solicited_frame; eauto|].
+  eapply write_solicited_out; eauto.
+Qed.
+
+(* ---------- classification ---------------------------------------------------------------------- *)
+
+Lemma to_treq_request : forall cfg from d ctl fn obj,
+  to_treq cfg from d = TqRequest ctl fn obj -> d = DOk ctl fn RvOk obj.
+Proof.
+  intros cfg from d ctl fn obj H. unfold to_treq in H.
+  destruct (_ && _); [discriminate|].
+  destruct d as [|q c|c f rv ob]; try discriminate. destruct rv; [|discriminate].
+  inversion H; subst. reflexivity.
+Qed.
+
+Definition last_response (s : ostate) : option response :=
+  match s_last s with Some l => lr_response l | None => None end.
+
+Lemma classify_cases : forall s bc bytes ctl fn obj,
+  match classify s bc bytes ctl fn obj with
+  | FtMalformed iin2 => bc = None /\ obj = ObjErr iin2 /\ fn <> 0
+  | FtNewRead hdrs rh => bc = None /\ obj = ObjOk hdrs rh /\ fn = 1
+  | FtRepeatRead resp hdrs rh => bc = None /\ obj = ObjOk hdrs rh /\ fn = 1 /\ resp = last_response s
+  | FtNewNonRead hdrs => bc = None /\ (exists rh, obj = ObjOk hdrs rh) /\ fn <> 1 /\ fn <> 0
+  | FtRepeatNonRead resp => bc = None /\ resp = last_response s /\ fn <> 1 /\ fn <> 0
+  | FtBroadcast m => bc = Some m
+  | FtSolConfirm q => bc = None /\ fn = 0 /\ q = ctl_seq ctl /\ ctl_uns ctl = false
+  | FtUnsolConfirm q => bc = None /\ fn = 0 /\ q = ctl_seq ctl /\ ctl_uns ctl = true
+  end.
+Proof.
+  intros s bc bytes ctl fn obj. unfold classify.
+  destruct bc as [m|]; [reflexivity|].
+  destruct (fn =? fn_confirm) eqn:E0.
+  { apply N.eqb_eq in E0. destruct (ctl_uns ctl) eqn:Eu; repeat split; auto. }
+  apply N.eqb_neq in E0.
+  destruct obj as [iin2|hdrs rh]; [repeat split; auto|].
+  destruct (match s_last s with Some l => _ | None => false end).
+  - destruct (fn =? fn_read) eqn:E1.
+    + apply N.eqb_eq in E1. repeat split; auto.
+    + apply N.eqb_neq in E1. repeat split; auto.
+  - destruct (fn =? fn_read) eqn:E1.
+    + apply N.eqb_eq in E1. repeat split; auto.
+    + apply N.eqb_neq in E1. repeat split; eauto.
+Qed.
+
+Definition last_ok (s : ostate) : Prop :=
+  forall l r, s_last s = Some l -> lr_response l = Some r -> r_fn r = 129.
+
+Lemma last_ok_response : forall s r, last_ok s -> last_response s = Some r -> r_fn r = 129.
+Proof.
+  intros s r H Hl. unfold last_response in Hl. destruct (s_last s) as [l|] eqn:E; [|discriminate].
+  eapply H; eauto.
+Qed.
+
+Lemma last_ok_mk : forall s seq bytes r se,
+  (forall x, r = Some x -> r_fn x = 129) -> last_ok (upd_last s (mk_last seq bytes r se)).
+Proof.
+  intros s seq bytes r se H l x Hl Hx. cbn in Hl. inversion Hl; subst. cbn in Hx. auto.
+Qed.
+
+(* ---------- handle_one_request_from_idle ------------------------------------------------------------- *)
+
+Definition add_con_series (se : option series) (r : response) : option series :=
+  match se with
+  | None => if ctl_con (r_ctl r) then Some {| se_ecsn := ctl_seq (r_ctl r); se_fin := true |} else None
+  | x => x
+  end.
+
+(* the local `finish` of handle_from_idle *)
+Definition hfi_finish (cfg : ocfg) (from fn seq : N) (bytes : list N)
+           (s1 : ostate) (resp : option response) (se : option series) (repeat : bool) (o1 : list oobs)
+  : ostate * list oobs :=
+  let o0 := [OInfo (IIdleRequest fn seq)] in
+  match resp with
+  | Some r =>
+      if repeat then
+        let o2 := repeat_solicited s1 from r in
+        let se' := add_con_series se r in
+        let s2 := upd_last s1 (mk_last seq bytes (Some r) se') in
+        match se' with
+        | Some x => (upd_control s2 (CSolWait x (confirm_deadline cfg s2) RStep2), o0 ++ o1 ++ o2 ++ [OInfo (IEnterSolWait (se_ecsn x))])
+        | None => (s2, o0 ++ o1 ++ o2)
+        end
+      else
+        let '(s2, r', o2) := write_solicited s1 from r in
+        let se' := add_con_series se r' in
+        let s3 := upd_last s2 (mk_last seq bytes (Some r') se') in
+        match se' with
+        | Some x => (upd_control s3 (CSolWait x (confirm_deadline cfg s3) RStep2), o0 ++ o1 ++ o2 ++ [OInfo (IEnterSolWait (se_ecsn x))])
+        | None => (s3, o0 ++ o1 ++ o2)
+        end
+  | None => (upd_last s1 (mk_last seq bytes None se), o0 ++ o1)
+  end.
+
+Lemma handle_from_idle_eq : forall cfg s from bc bytes d fid,
+  handle_from_idle cfg s from bc bytes d fid =
+  match to_treq cfg from d with
+  | TqNone => (s, [])
+  | TqError seq => write_error_response s from bc seq
+  | TqRequest ctl fn obj =>
+      let seq := ctl_seq ctl in
+      let o0 := [OInfo (IIdleRequest fn seq)] in
+      let finish := hfi_finish cfg from fn seq bytes in
+      match classify s bc bytes ctl fn obj with
+      | FtMalformed iin2 => finish s (Some (empty_solicited seq iin2)) None false []
+      | FtNewRead _ _ | FtRepeatRead _ _ _ =>
+          let '(s1, r, se, o1) := format_first_read_response s seq in finish s1 (Some r) se false o1
+      | FtNewNonRead hdrs =>
+          let '(s1, r, o1) := handle_non_read cfg s fn seq fid bytes hdrs in finish s1 r None false o1
+      | FtRepeatNonRead last =>
+          let s1 := match s_select s with
+                    | Some sel =>
+                        if (ss_frame_id sel + 1) mod 4294967296 =? fid
+                        then upd_select s (Some {| ss_seq := ss_seq sel; ss_frame_id := fid;
+                                                   ss_time := ss_time sel; ss_objects := ss_objects sel |})
+                        else s
+                    | None => s
+                    end in
+          finish s1 last None true []
+      | FtBroadcast m =>
+          let '(s1, o1) := process_broadcast cfg s m fid ctl fn bytes obj in (s1, o0 ++ o1)
+      | FtSolConfirm _ | FtUnsolConfirm _ => (s, o0)
+      end
+  end.
+Proof. reflexivity. Qed.
+
+Definition ctl_step_sol (s s' : ostate) : Prop :=
+  s_control s' = s_control s \/ exists x dl r, s_control s' = CSolWait x dl r.
+
+Lemma hfi_finish_spec : forall cfg from fn seq bytes s1 resp se repeat o1 s' o,
+  hfi_finish cfg from fn seq bytes s1 resp se repeat o1 = (s', o) ->
+  (forall r, resp = Some r -> r_fn r = 129) -> Forall solob o1 ->
+  uview s' = uview s1 /\ s_enabled s' = s_enabled s1 /\ ctl_step_sol s1 s' /\ Forall solob o /\ last_ok s'.
+Proof.
+  intros cfg from fn seq bytes s1 resp se repeat o1 s' o H Hr Ho1. unfold hfi_finish in H. cbv zeta in H.
+  assert (Hi : solob (OInfo (IIdleRequest fn seq))) by exact I.
+  destruct resp as [r|].
+  - specialize (Hr r eq_refl). destruct repeat.
+    + assert (Ho2 : Forall solob (repeat_solicited s1 from r)).
+      { unfold repeat_solicited. constructor; [|constructor]. cbn [solob]. rewrite nth1_response_bytes. exact Hr. }
+      destruct (add_con_series se r) as [x|]; inv_pair H.
+      * split; [reflexivity|]. split; [reflexivity|]. split; [right; do 3 eexists; reflexivity|]. split.
+        -- constructor; [exact Hi|]. fa_tac.
+        -- intros l x0 Hl Hx. cbn in Hl. inversion Hl; subst. cbn in Hx. inversion Hx; subst. exact Hr.
+      * split; [reflexivity|]. split; [reflexivity|]. split; [left; reflexivity|]. split.
+        -- constructor; [exact Hi|]. fa_tac.
+        -- apply last_ok_mk. intros x0 Hx. inversion Hx; subst. exact Hr.
+    + destruct (write_solicited s1 from r) as [[s2 r'] o2] eqn:E.
+      pose proof (write_solicited_frame _ _ _ _ _ _ E) as Hf. apply frame_gview in Hf.
+      destruct Hf as [Hg He]. unfold gview in Hg.
+      destruct (write_solicited_out _ _ _ _ _ _ E Hr) as [Ho2 Hr'].
+      destruct (add_con_series se r') as [x|]; inv_pair H.
+      * split; [transitivity (uview s2); [reflexivity|congruence]|]. split; [exact He|]. split; [right; do 3 eexists; reflexivity|]. split.
+        -- constructor; [exact Hi|]. fa_tac.
+        -- intros l x0 Hl Hx. cbn in Hl. inversion Hl; subst. cbn in Hx. inversion Hx; subst. exact Hr'.
+      * split; [transitivity (uview s2); [reflexivity|congruence]|]. split; [exact He|]. split; [left; transitivity (s_control s2); [reflexivity|congruence]|]. split.
+        -- constructor; [exact Hi|]. fa_tac.
+        -- apply last_ok_mk. intros x0 Hx. inversion Hx; subst. exact Hr'.
+  - inv_pair H. split; [reflexivity|]. split; [reflexivity|]. split; [left; reflexivity|]. split.
+    + constructor; [exact Hi|]. exact Ho1.
+    + apply last_ok_mk. discriminate.
+Qed.
+
+(* what a request does to the enabled classes *)
+Definition enable_req (cfg : ocfg) (d : digest) (s s' : ostate) : Prop :=
+  s_enabled s' = s_enabled s \/
+  exists ctl fn hdrs rh, d = DOk ctl fn RvOk (ObjOk hdrs rh) /\ o_unsol cfg = true /\ (fn = 20 \/ fn = 21) /\
+                         s_enabled s' = set_classes (fn =? 20) hdrs (s_enabled s).
+
+Lemma enabled_change_req : forall cfg ctl fn hdrs rh s s' s1,
+  enabled_change cfg fn hdrs s s1 -> s_enabled s' = s_enabled s1 ->
+  enable_req cfg (DOk ctl fn RvOk (ObjOk hdrs rh)) s s'.
+Proof.
+  intros cfg ctl fn hdrs rh s s' s1 [H|(Hu & Hf & He)] Hs.
+  - left. congruence.
+  - right. exists ctl, fn, hdrs, rh. repeat split; auto. congruence.
+Qed.
+
+Lemma handle_from_idle_spec : forall cfg s from bc bytes d fid s' o,
+  handle_from_idle cfg s from bc bytes d fid = (s', o) ->
+  uview s' = uview s /\ ctl_step_sol s s' /\ enable_req cfg d s s' /\
+  (last_ok s -> Forall solob o /\ last_ok s').
+Proof.
+  intros cfg s from bc bytes d fid s' o H. rewrite handle_from_idle_eq in H.
+  destruct (to_treq cfg from d) as [|q|ctl fn obj] eqn:Et.
+  - inv_pair H. split; [reflexivity|]. split; [left; reflexivity|]. split; [left; reflexivity|].
+    intros Hl. split; [constructor|exact Hl].
+  - apply write_error_response_spec in H. destruct H as [Hf Ho].
+    apply frame_gview in Hf. destruct Hf as [Hg He]. unfold gview in Hg.
+    split; [congruence|]. split; [left; congruence|]. split; [left; exact He|].
+    intros Hl. split; [exact Ho|]. intros l r Hs. apply Hl. congruence.
+  - apply to_treq_request in Et. subst d. cbv zeta in H.
+    pose proof (classify_cases s bc bytes ctl fn obj) as Hc.
+    assert (Hreads : (let '(s1, r, se, o1) := format_first_read_response s (ctl_seq ctl) in
+                      hfi_finish cfg from fn (ctl_seq ctl) bytes s1 (Some r) se false o1) = (s', o) ->
+            uview s' = uview s /\ ctl_step_sol s s' /\ s_enabled s' = s_enabled s /\ Forall solob o /\ last_ok s').
+    { intros H'. destruct (format_first_read_response s (ctl_seq ctl)) as [[[s1 r] se] o1] eqn:E.
+      apply format_first_read_response_spec in E. destruct E as (Hf & Hr & _ & Ho1).
+      apply frame_gview in Hf. destruct Hf as [Hg He]. unfold gview in Hg.
+      eapply hfi_finish_spec in H'.
+      - destruct H' as (Hu & He' & Hc' & Ho & Hl). split; [congruence|].
+        split; [destruct Hc' as [Hc'|Hc']; [left; congruence|right; exact Hc']|].
+        split; [congruence|]. split; assumption.
+      - intros x Hx. inversion Hx; subst. exact Hr.
+      - eapply Forall_imp; [apply dbq_solob|exact Ho1]. }
+    destruct (classify s bc bytes ctl fn obj) as [iin2|hdrs rh|resp hdrs rh|hdrs|resp|m|q|q].
+    + eapply hfi_finish_spec in H; [|intros x Hx; inversion Hx; subst; reflexivity|constructor].
+      destruct H as (Hu & He & Hc' & Ho & Hl).
+      split; [exact Hu|]. split; [exact Hc'|]. split; [left; exact He|]. intros _. split; assumption.
+    + apply Hreads in H. destruct H as (Hu & Hc' & He & Ho & Hl).
+      split; [exact Hu|]. split; [exact Hc'|]. split; [left; exact He|]. intros _. split; assumption.
+    + apply Hreads in H. destruct H as (Hu & Hc' & He & Ho & Hl).
+      split; [exact Hu|]. split; [exact Hc'|]. split; [left; exact He|]. intros _. split; assumption.
+    + destruct (handle_non_read cfg s fn (ctl_seq ctl) fid bytes hdrs) as [[s1 r] o1] eqn:E.
+      apply handle_non_read_spec in E. destruct E as (Hg & Ho1 & Hr & _ & Hen). unfold gview in Hg.
+      eapply hfi_finish_spec in H.
+      * destruct H as (Hu & He & Hc' & Ho & Hl). split; [congruence|].
+        split; [destruct Hc' as [Hc'|Hc']; [left; congruence|right; exact Hc']|].
+        destruct Hc as (_ & [rh ->] & _).
+        split; [eapply enabled_change_req; eauto|]. intros _. split; assumption.
+      * intros x Hx. apply Hr in Hx. apply Hx.
+      * eapply Forall_imp; [apply exob_solob|exact Ho1].
+    + destruct Hc as (_ & -> & _). cbv zeta in H. clear Hreads.
+      set (s1 := match s_select s with Some sel => _ | None => s end) in H.
+      assert (Hs1 : uview s1 = uview s /\ s_control s1 = s_control s /\ s_enabled s1 = s_enabled s).
+      { subst s1. destruct (s_select s); [destruct (_ =? _)|]; repeat split. }
+      destruct Hs1 as (Hu1 & Hc1 & He1).
+      split; [|split; [|split]].
+      4:{ intros Hl. eapply hfi_finish_spec in H; [|intros x Hx; eapply last_ok_response; eauto|constructor].
+          destruct H as (_ & _ & _ & Ho & Hl'). split; assumption. }
+      all: destruct (last_response s) as [r|] eqn:El.
+      all: unfold hfi_finish in H; cbv zeta in H.
+      all: try (destruct (add_con_series None r) as [x|]; inv_pair H).
+      all: try (inv_pair H).
+      all: try (cbn; congruence).
+      all: try (left; cbn; congruence).
+      all: try (right; do 3 eexists; reflexivity).
+      all: exact Hu1.
+    + destruct (process_broadcast cfg s m fid ctl fn bytes obj) as [s1 o1] eqn:E. inv_pair H.
+      apply process_broadcast_spec in E. destruct E as (Hg & Ho1 & Hen). unfold gview in Hg.
+      split; [congruence|]. split; [left; congruence|]. split.
+      * destruct Hen as [Hen|(hdrs & rh & -> & _ & Hen)]; [left; exact Hen|].
+        eapply enabled_change_req; eauto.
+      * intros Hl. split; [constructor; [exact I|exact Ho1]|].
+        intros l r Hs. apply Hl. congruence.
+    + inv_pair H. split; [reflexivity|]. split; [left; reflexivity|]. split; [left; reflexivity|].
+      intros Hl. split; [fa_tac|exact Hl].
+    + inv_pair H. split; [reflexivity|]. split; [left; reflexivity|]. split; [left; reflexivity|].
+      intros Hl. split; [fa_tac|exact Hl].
+Qed.
+
+(* ---------- a fragment during the unsolicited confirm wait ------------------------------------------ *)
+
+Definition wview (s : ostate) :=
+  (s_unsol s, s_unsol_seq s, s_unsol_buf s, s_now s, s_pending s, s_control s).
+
+Lemma gview_wview : forall a b, gview a = gview b ->
+  wview a = wview b /\ s_deferred a = s_deferred b /\ s_last a = s_last b.
+Proof. unfold gview, uview, wview. intros a b H. repeat split; congruence. Qed.
+
+Lemma frame_wview : forall a b, frame a b ->
+  wview b = wview a /\ s_deferred b = s_deferred a /\ s_last b = s_last a /\ s_enabled b = s_enabled a.
+Proof.
+  intros a b H. apply frame_gview in H. destruct H as [Hg He]. apply gview_wview in Hg.
+  destruct Hg as (H1 & H2 & H3). repeat split; assumption.
+Qed.
+
+Lemma last_ok_same : forall s s', s_last s' = s_last s -> last_ok s -> last_ok s'.
+Proof. intros s s' H Hl l r Hs. apply Hl. congruence. Qed.
+
+Lemma enable_req_refl : forall cfg d s s', s_enabled s' = s_enabled s -> enable_req cfg d s s'.
+Proof. intros. left. assumption. Qed.
+
+Lemma unsol_wait_fragment_spec : forall cfg s resp from bc bytes d fid s1 res o,
+  unsol_wait_fragment cfg s resp from bc bytes d fid = (s1, res, o) ->
+  wview s1 = wview s /\ enable_req cfg d s s1 /\ (last_ok s -> last_ok s1) /\
+  match res with
+  | Some UrConfirmed =>
+      o = [OInfo (IUnsolConfirmed (ctl_seq (r_ctl resp)))] /\ s_deferred s1 = s_deferred s /\
+      s_enabled s1 = s_enabled s
+  | Some UrReturnToIdle =>
+      (last_ok s -> Forall solob o) /\ s_deferred s1 = None /\ bc = None /\
+      (exists ctl obj, d = DOk ctl 21 RvOk obj) /\ exists o1 b, o = o1 ++ [OTx from b]
+  | Some UrTimeout => False
+  | None => last_ok s -> Forall solob o
+  end.
+Proof.
+  intros cfg s resp from bc bytes d fid s1 res o H. unfold unsol_wait_fragment in H.
+  destruct (to_treq cfg from d) as [|q|ctl fn obj] eqn:Et.
+  { inv_pair H. split; [reflexivity|]. split; [left; reflexivity|]. split; [auto|]. intros _. constructor. }
+  { destruct (write_error_response (upd_deferred s None) from bc q) as [s2 o2] eqn:E. inv_pair H.
+    apply write_error_response_spec in E. destruct E as [Hf Ho]. apply frame_wview in Hf.
+    destruct Hf as (Hw & _ & Hl & He).
+    split; [rewrite Hw; reflexivity|]. split; [left; rewrite He; reflexivity|].
+    split; [intros Hk; eapply last_ok_same; [|exact Hk]; rewrite Hl; reflexivity|]. intros _. exact Ho. }
+  apply to_treq_request in Et. subst d. cbv zeta in H.
+  pose proof (classify_cases s bc bytes ctl fn obj) as Hc.
+  destruct (classify s bc bytes ctl fn obj) as [iin2|hdrs rh|rsp hdrs rh|hdrs|rsp|m|q|q].
+  - (* malformed *)
+    destruct (write_solicited (upd_deferred s None) from (empty_solicited (ctl_seq ctl) iin2)) as [[s2 r2] o2] eqn:E.
+    inv_pair H. pose proof (write_solicited_frame _ _ _ _ _ _ E) as Hf. apply frame_wview in Hf.
+    destruct Hf as (Hw & _ & Hl & He).
+    split; [rewrite Hw; reflexivity|]. split; [left; rewrite He; reflexivity|].
+    split; [intros Hk; eapply last_ok_same; [|exact Hk]; rewrite Hl; reflexivity|]. intros _.
+    eapply write_solicited_out; eauto.
+  - inv_pair H. split; [reflexivity|]. split; [left; reflexivity|]. split; [auto|]. intros _. constructor.
+  - inv_pair H. split; [reflexivity|]. split; [left; reflexivity|]. split; [auto|]. intros _. constructor.
+  - (* new non-read *)
+    destruct (handle_non_read cfg (upd_deferred s None) fn (ctl_seq ctl) fid bytes hdrs) as [[s2 r] o1] eqn:E1.
+    apply handle_non_read_spec in E1. destruct E1 as (Hg & Ho1 & Hr & Hn & Hen).
+    apply gview_wview in Hg. destruct Hg as (Hw & Hd & Hl).
+    destruct Hc as (Hbc & [rh ->] & Hf1 & Hf0).
+    assert (Hen' : forall s3, s_enabled s3 = s_enabled s2 -> enable_req cfg (DOk ctl fn RvOk (ObjOk hdrs rh)) s s3).
+    { intros s3 H3. eapply enabled_change_req; [|exact H3].
+      destruct Hen as [Hen|(Hu & Hfn & Hen)]; [left; exact Hen|right; repeat split; auto]. }
+    destruct r as [r0|].
+    + destruct (write_solicited s2 from r0) as [[s3 r1] o2] eqn:E2. inv_pair H.
+      pose proof (write_solicited_frame _ _ _ _ _ _ E2) as Hf. apply frame_wview in Hf.
+      destruct Hf as (Hw3 & Hd3 & Hl3 & He3).
+      destruct (Hr r0 eq_refl) as [Hr0 _].
+      destruct (write_solicited_out _ _ _ _ _ _ E2 Hr0) as [Ho2 Hr1].
+      split; [transitivity (wview s3); [reflexivity|]; rewrite Hw3, Hw; reflexivity|].
+      split; [apply Hen'; exact He3|].
+      split; [intros _; apply last_ok_mk; intros x Hx; inversion Hx; subst; exact Hr1|].
+      assert (Hout : Forall solob (o1 ++ o2)).
+      { apply Forall_app; split; [eapply Forall_imp; [apply exob_solob|exact Ho1]|exact Ho2]. }
+      destruct (fn =? fn_disable_unsol) eqn:E21; [|intros _; exact Hout].
+      apply N.eqb_eq in E21. subst fn.
+      split; [intros _; exact Hout|]. split; [cbn; rewrite Hd3, Hd; reflexivity|].
+      split; [reflexivity|]. split; [eauto|].
+      apply write_solicited_spec in E2. destruct E2 as (o' & -> & _).
+      exists (o1 ++ o'). eexists. rewrite app_assoc. reflexivity.
+    + inv_pair H.
+      split; [transitivity (wview s2); [reflexivity|]; rewrite Hw; reflexivity|].
+      split; [apply Hen'; reflexivity|].
+      split; [intros _; apply last_ok_mk; discriminate|].
+      destruct (fn =? fn_disable_unsol) eqn:E21.
+      * apply N.eqb_eq in E21. subst fn. destruct (Hn eq_refl) as [X|[X|[X|X]]]; discriminate X.
+      * intros _. rewrite app_nil_r. eapply Forall_imp; [apply exob_solob|exact Ho1].
+  - (* repeat non-read *)
+    inv_pair H. split; [reflexivity|]. split; [left; reflexivity|]. split; [auto|].
+    intros Hl. destruct Hc as (_ & -> & _). destruct (last_response s) as [r|] eqn:El; [|constructor].
+    unfold repeat_solicited. constructor; [|constructor]. cbn [solob]. rewrite nth1_response_bytes.
+    eapply last_ok_response; eauto.
+  - (* broadcast *)
+    destruct (process_broadcast cfg (upd_deferred s None) m fid ctl fn bytes obj) as [s2 o2] eqn:E. inv_pair H.
+    apply process_broadcast_spec in E. destruct E as (Hg & Ho & Hen).
+    apply gview_wview in Hg. destruct Hg as (Hw & Hd & Hl).
+    split; [rewrite Hw; reflexivity|]. split.
+    { destruct Hen as [Hen|(hdrs & rh & -> & _ & Hen)]; [left; exact Hen|].
+      eapply enabled_change_req; [|reflexivity].
+      destruct Hen as [Hen|(Hu & Hfn & Hen)]; [left; exact Hen|right; repeat split; auto]. }
+    split; [intros Hk; eapply last_ok_same; [|exact Hk]; rewrite Hl; reflexivity|]. intros _. exact Ho.
+  - (* solicited confirm *)
+    inv_pair H. split; [destruct (s_last_bcast s) as [[]|]; reflexivity|].
+    split; [left; destruct (s_last_bcast s) as [[]|]; reflexivity|].
+    split; [intros Hk; eapply last_ok_same; [|exact Hk]; destruct (s_last_bcast s) as [[]|]; reflexivity|].
+    intros _. constructor.
+  - (* unsolicited confirm *)
+    destruct (q =? ctl_seq (r_ctl resp)) eqn:Eq.
+    + apply N.eqb_eq in Eq. subst q. inv_pair H.
+      split; [reflexivity|]. split; [left; reflexivity|]. split; [auto|]. repeat split; try reflexivity.
+    + inv_pair H. split; [reflexivity|]. split; [left; reflexivity|]. split; [auto|]. intros _. constructor.
+Qed.
+
+(* ---------- the fields property C14 is about ---------------------------------------------------- *)
+
+Definition kview (s : ostate) := (wview s, s_deferred s, s_enabled s, s_last s).
+
+Definition is_uw (c : control) : bool := match c with CUnsolWait _ _ _ _ => true | _ => false end.
+
+(* ---------- handle_deferred_read --------------------------------------------------------------- *)
+
+Definition dview (s : ostate) :=
+  (s_unsol s, s_unsol_seq s, s_unsol_buf s, s_now s, s_pending s, s_enabled s).
+
+Lemma frame_dview : forall a b, frame a b -> dview b = dview a /\ s_control b = s_control a /\ s_deferred b = s_deferred a.
+Proof. unfold frame, fview, uview, dview. intros a b H. repeat split; congruence. Qed.
+
+Lemma handle_deferred_spec : forall cfg s ns s' o,
+  handle_deferred cfg s ns = (s', o) ->
+  match s_deferred s with
+  | None => s' = s /\ o = []
+  | Some d =>
+      s_deferred s' = None /\ dview s' = dview s /\ ctl_step_sol s s' /\ last_ok s' /\
+      exists o1 b o2, o = ODb DbDeferredSelect :: o1 ++ OTx (df_from d) b :: o2 /\ Forall dbq o1 /\
+                      nth 1 b 0 = 129 /\ ctl_seq (nth 0 b 0) = df_seq d mod 16 /\
+                      (o2 = [] \/ exists q, o2 = [OInfo (IEnterSolWait q)])
+  end.
+Proof.
+  intros cfg s ns s' o H. unfold handle_deferred in H.
+  destruct (s_deferred s) as [d|] eqn:Ed; [|inv_pair H; split; reflexivity].
+  destruct (ask_iin2 (upd_notify (upd_deferred s None) true) DbDeferredSelect) as [[s1 iin2] o1] eqn:E1.
+  destruct (format_read_response s1 true (df_seq d) (N.lor (df_iin2 d) iin2)) as [[[s2 r] se] o2] eqn:E2.
+  destruct (write_solicited s2 (df_from d) r) as [[s3 r'] o3] eqn:E3.
+  pose proof (ask_iin2_frame _ _ _ _ _ E1) as F1.
+  apply format_read_response_spec in E2. destruct E2 as (F2 & Hr & Hc & Ho2 & _).
+  pose proof (write_solicited_frame _ _ _ _ _ _ E3) as F3.
+  pose proof (frame_trans _ _ _ (frame_trans _ _ _ F1 F2) F3) as F.
+  apply frame_dview in F. destruct F as (Hd & Hctl & Hdef).
+  apply write_solicited_spec in E3. destruct E3 as (o3' & -> & Ho3 & Hf' & Hc' & _).
+  assert (Hout : forall tail, (tail = [] \/ exists q, tail = [OInfo (IEnterSolWait q)]) ->
+     exists oa b ob, o1 ++ o2 ++ (o3' ++ [OTx (df_from d) (response_bytes r' (s_sol_buf s3))]) ++ tail
+                     = ODb DbDeferredSelect :: oa ++ OTx (df_from d) b :: ob /\ Forall dbq oa /\
+                       nth 1 b 0 = 129 /\ ctl_seq (nth 0 b 0) = df_seq d mod 16 /\
+                       (ob = [] \/ exists q, ob = [OInfo (IEnterSolWait q)])).
+  { intros tail Ht.
+    assert (Ho1 : exists x, o1 = ODb DbDeferredSelect :: x /\ Forall dbq x).
+    { destruct (ask_iin2_out _ _ _ _ _ E1) as [-> | ->]; eexists; split; try reflexivity; fa_tac. }
+    destruct Ho1 as (x & -> & Hx).
+    exists (x ++ o2 ++ o3'), (response_bytes r' (s_sol_buf s3)), tail.
+    split; [cbn [app]; rewrite <- !app_assoc; reflexivity|].
+    split; [repeat (apply Forall_app; split); auto; eapply Forall_imp; [apply evq_dbq|exact Ho3]|].
+    split; [rewrite nth1_response_bytes; congruence|].
+    split; [rewrite nth0_response_bytes; congruence|exact Ht]. }
+  assert (Hlast : forall c sx, last_ok (upd_control (upd_last s3 (mk_last (df_seq d) (df_bytes d) (Some r') sx)) c)).
+  { intros c sx l x Hl Hx. cbn in Hl. inversion Hl; subst. cbn in Hx. inversion Hx; subst. congruence. }
+  match type of H with match ?X with _ => _ end = _ => destruct X as [x|] end; inv_pair H.
+  - split; [cbn; rewrite Hdef; reflexivity|]. split; [exact Hd|].
+    split; [right; do 3 eexists; reflexivity|]. split; [apply Hlast|].
+    apply Hout. right. eauto.
+  - split; [cbn; rewrite Hdef; reflexivity|]. split; [exact Hd|].
+    split; [left; exact Hctl|]. split; [apply last_ok_mk; intros y Hy; inversion Hy; subst; congruence|].
+    rewrite <- (app_nil_r (o3' ++ _)). apply Hout. left. reflexivity.
+Qed.
+
+(* ---------- check_unsolicited ------------------------------------------------------------------- *)
+
+Definition uns_ctl (seq : N) : N := ctl_byte true true true true seq.
+
+(* a series was started: the response written, the wait entered *)
+Definition started (cfg : ocfg) (s s' : ostate) (is_null : bool) (size : nat) (buf : list N) (o : list oobs) : Prop :=
+  exists r o1,
+    o = o1 ++ [OTx (o_master cfg) (response_bytes r buf); OInfo (IEnterUnsolWait (ctl_seq (r_ctl r)))] /\
+    Forall evq o1 /\ r_fn r = 130 /\ r_ctl r = uns_ctl (s_unsol_seq s) /\ r_size r = size /\
+    s_control s' = CUnsolWait r is_null (if is_null then Some 0%nat else o_retries cfg)
+                              (s_now s + o_confirm_ms cfg)%Z /\
+    s_unsol_seq s' = seq16_next (s_unsol_seq s) /\ s_unsol_buf s' = buf /\
+    s_unsol s' = s_unsol s /\ s_now s' = s_now s /\ s_deferred s' = s_deferred s /\
+    s_pending s' = s_pending s /\ s_enabled s' = s_enabled s /\ s_last s' = s_last s.
+
+Definition unsol_ready (s : ostate) (dl : option Z) : bool :=
+  match dl with Some t => (t <=? s_now s)%Z | None => true end.
+
+Lemma start_unsol_spec : forall cfg s0 s r n s' o,
+  start_unsol cfg s r n = (s', o) ->
+  r_fn r = 130 -> r_ctl r = uns_ctl (s_unsol_seq s0) -> s_unsol_seq s = seq16_next (s_unsol_seq s0) ->
+  s_unsol s = s_unsol s0 -> s_now s = s_now s0 -> s_deferred s = s_deferred s0 -> s_pending s = s_pending s0 ->
+  s_enabled s = s_enabled s0 -> s_last s = s_last s0 ->
+  started cfg s0 s' n (r_size r) (s_unsol_buf s) o.
+Proof.
+  intros cfg s0 s r n s' o H Hf Hc Hq Hu Hn Hd Hp He Hl. unfold start_unsol in H.
+  destruct (write_unsolicited cfg s r) as [[s1 r1] o1] eqn:E. inv_pair H.
+  unfold write_unsolicited in E. destruct (response_iin s) as [[s2 iin] o2] eqn:Ei. inv_pair E.
+  pose proof (response_iin_out _ _ _ _ Ei) as Ho2.
+  apply response_iin_frame in Ei.
+  assert (Hv : uview s1 = uview s /\ s_enabled s1 = s_enabled s /\ s_last s1 = s_last s).
+  { unfold frame, fview in Ei. repeat split; congruence. }
+  destruct Hv as (Hv & He1 & Hl1). unfold uview in Hv.
+  exists (or_iin r iin), o2. assert (Hb1 : s_unsol_buf s1 = s_unsol_buf s) by congruence.
+  assert (Hn1 : s_now s1 = s_now s) by congruence.
+  split; [rewrite <- app_assoc; cbn [app]; rewrite Hb1; reflexivity|].
+  split; [exact Ho2|]. split; [exact Hf|]. split; [exact Hc|]. split; [reflexivity|].
+  split; [cbn; unfold confirm_deadline; cbn; rewrite Hn1, Hn; reflexivity|].
+  cbn. repeat split; congruence.
+Qed.
+
+Lemma check_unsolicited_spec : forall cfg s s' b o,
+  check_unsolicited cfg s = (s', b, o) ->
+  (o = [] /\ kview s' = kview s) \/
+  (o_unsol cfg = true /\ s_unsol s = UNullRequired /\ started cfg s s' true 0 (s_unsol_buf s) o) \/
+  (o_unsol cfg = true /\
+   exists dl c1 c2 c3 body o',
+     s_unsol s = UReady dl /\ unsol_ready s dl = true /\ any_enabled s = true /\ s_enabled s = (c1, c2, c3) /\
+     o = ODb (DbWriteUnsol c1 c2 c3) :: o' /\
+     started cfg s s' false (4 + length body) (buf_set (s_unsol_buf s) body) o').
+Proof.
+  intros cfg s s' b o H. unfold check_unsolicited in H.
+  destruct (o_unsol cfg) eqn:Eu; cbn [negb] in H; [|inv_pair H; left; split; reflexivity].
+  destruct (s_unsol s) as [|dl] eqn:Es.
+  - destruct (start_unsol cfg (upd_unsol_seq s (seq16_next (s_unsol_seq s))) (unsol_header (s_unsol_seq s) 0) true)
+      as [s2 o2] eqn:E. inv_pair H.
+    right; left. split; [reflexivity|]. split; [reflexivity|].
+    eapply (start_unsol_spec cfg s) in E; try reflexivity. exact E.
+  - fold (unsol_ready s dl) in H. destruct (unsol_ready s dl) eqn:Er; cbn [negb] in H;
+      [|inv_pair H; left; split; reflexivity].
+    destruct (any_enabled s) eqn:Ea; cbn [negb] in H; [|inv_pair H; left; split; reflexivity].
+    destruct (ask_unsol s) as [s1 [count body]] eqn:Ea1.
+    assert (Hs1 : kview s1 = kview s /\ s_unsol_buf s1 = s_unsol_buf s /\ s_unsol_seq s1 = s_unsol_seq s).
+    { unfold ask_unsol in Ea1. destruct (s_answers s) as [|[] rest]; inv_pair Ea1; repeat split. }
+    destruct Hs1 as (Hk & Hb1 & Hq1).
+    destruct (s_enabled s) as [[c1 c2] c3] eqn:Een.
+    destruct (count =? 0); [inv_pair H; left; split; [reflexivity|]; rewrite Hk; unfold kview; rewrite Een; reflexivity|].
+    match type of H with (let '(_, _) := ?X in _) = _ => destruct X as [s3 o3] eqn:E end. inv_pair H.
+    right; right. split; [reflexivity|]. exists dl, c1, c2, c3, body, o3.
+    split; [reflexivity|]. split; [first [exact Er|reflexivity]|]. split; [first [exact Ea|reflexivity]|]. split; [first [exact Een|reflexivity]|]. split; [reflexivity|].
+    unfold kview, wview in Hk.
+    eapply (start_unsol_spec cfg s) in E.
+    + psimpl_in E. cbn [r_size unsol_header] in E. rewrite Hb1 in E. exact E.
+    + reflexivity.
+    + cbn [r_ctl unsol_header]. rewrite Hq1. reflexivity.
+    + psimpl. rewrite Hq1. reflexivity.
+    + psimpl. congruence.
+    + psimpl. congruence.
+    + psimpl. congruence.
+    + psimpl. congruence.
+    + psimpl. congruence.
+    + psimpl. congruence.
+Qed.
+
+Lemma end_unsol_spec : forall cfg s n r s' ns o,
+  end_unsol cfg s n r = (s', ns, o) ->
+  s_control s' = CIdle /\
+  (s_unsol_seq s', s_unsol_buf s', s_now s', s_pending s', s_deferred s', s_enabled s', s_last s') =
+  (s_unsol_seq s, s_unsol_buf s, s_now s, s_pending s, s_deferred s, s_enabled s, s_last s) /\
+  s_unsol s' = match r with
+               | UrConfirmed => UReady None
+               | _ => if n then UNullRequired else UReady (Some (s_now s + o_retry_delay_ms cfg)%Z)
+               end /\
+  o = (if n then [] else match r with UrConfirmed => [ODb DbClearWritten] | _ => [ODb DbReset] end) /\
+  ns = (if n then true else match r with UrConfirmed => true | _ => false end).
+Proof.
+  intros cfg s n r s' ns o H. unfold end_unsol in H.
+  destruct n, r; inv_pair H; repeat split.
+Qed.
+
+(* ---------- solicited confirm wait ---------------------------------------------------------------- *)
+
+Lemma sol_wait_fragment_out : forall cfg s se dl from bc bytes d out o,
+  sol_wait_fragment cfg s se dl from bc bytes d = (out, o) -> last_ok s -> Forall solob o.
+Proof.
+  intros cfg s se dl from bc bytes d out o H Hl. unfold sol_wait_fragment in H.
+  destruct (to_treq cfg from d) as [|q|ctl fn obj]; [inv_pair H; constructor|inv_pair H; fa_tac|].
+  pose proof (classify_cases s bc bytes ctl fn obj) as Hc.
+  destruct (classify s bc bytes ctl fn obj) as [iin2|hdrs rh|rsp hdrs rh|hdrs|rsp|m|q|q];
+    try (inv_pair H; fa_tac; fail).
+  - destruct Hc as (_ & _ & _ & ->). inv_pair H.
+    destruct (last_response s) as [r|] eqn:El; [|constructor].
+    unfold repeat_solicited. constructor; [|constructor]. cbn [solob]. rewrite nth1_response_bytes.
+    eapply last_ok_response; eauto.
+  - destruct (q =? se_ecsn se); inv_pair H; fa_tac.
+Qed.
